@@ -1,10 +1,23 @@
 (* C10 — AMP armor round-trips and survives cache-style rewriting.
    Only theorem statements; every proof is `exact <lemma of Proofs/*>`.
-   Models: coq/Model/Base64.v, coq/Model/Armor.v (common/amp/armor_encoder.go, armor_decoder.go;
-   the x/net/html tokenizer + decodeToWriter as one byte automaton, see Armor.v header). *)
+   Models: coq/Model/Base64.v, Armor.v, ArmorStream.v, HtmlEntities.v (common/amp/armor_encoder.go,
+   armor_decoder.go).  The decoder is modelled in the layers of the code: x/net/html's Tokenizer as a
+   byte-incremental automaton returning tokens (comments, doctype, raw-text and RCDATA elements, the
+   script escape states, attributes, self-closing tags, any letter case, NUL, the SetMaxBuf accounting),
+   Tokenizer.Text (convertNewlines, NUL replacement, character references with the library's complete
+   entity table), decodeToWriter with bufio.Scanner's word splitting and 64 KiB token limit, the
+   io.Pipe, NewArmorDecoder's version byte and base64.NewDecoder's Read with its buffer arithmetic
+   (so also its read-size dependent acceptance of data after padding).
+   Not modelled, i.e. outside every statement below (monitors / assumptions of lib/checks/c10.py):
+   a source reader that fails or returns (0, nil); scheduling of the two goroutines beyond the
+   rendezvous points of the pipe (the model is the sequential demand-driven process they form);
+   allocation sizes of the Go runtime (the buffering theorem counts bytes held in the modelled buffers).
+   CDATA sections are not enabled by the decoder (AllowCDATA is never called): "<![CDATA[" is a bogus
+   comment, and is modelled as that. *)
 From Coq Require Import List NArith Bool Arith String Lia.
-From Snow Require Import Lib.Wire Model.Base64 Model.Armor.
+From Snow Require Import Lib.Wire Model.Base64 Model.Armor Model.ArmorStream.
 From Snow Require Import Proofs.Base64Proofs Proofs.ArmorEncProofs Proofs.ArmorDecProofs Proofs.ArmorMarkupProofs.
+From Snow Require Import Proofs.ArmorStreamProofs Proofs.ArmorBufProofs Proofs.ArmorStreamInst.
 Import ListNotations.
 Open Scope N_scope.
 
@@ -12,7 +25,7 @@ Open Scope N_scope.
 Theorem C10_b64_roundtrip : forall p, bytes_ok p = true -> b64_decode (b64_encode p) = Some p.
 Proof. exact b64_roundtrip. Qed.
 
-(* decoding the armor of any byte string returns that byte string *)
+(* decoding the armor of any byte string returns that byte string (whole-document meaning) *)
 Theorem C10_roundtrip : forall p, bytes_ok p = true -> armor_decode (armor_encode p) = DOk p.
 Proof. exact roundtrip. Qed.
 
@@ -25,6 +38,157 @@ Proof. exact write_chunking. Qed.
 Corollary C10_roundtrip_any_writes : forall parts,
   bytes_ok (List.concat parts) = true -> armor_decode (armor_stream parts) = DOk (List.concat parts).
 Proof. intros parts H. rewrite write_chunking. exact (roundtrip _ H). Qed.
+
+(* ================================================================== the decoder as a streaming reader *)
+
+(* For ANY tokenizer that consumes its input byte by byte (T, tinit, tfeed, tfin: the library boundary),
+   any way the source's Reads cut the document into chunks, any sequence of non-empty caller buffers:
+   the bytes the Reads return, up to io.EOF or the first error, are what the whole-stream meaning
+   [decode_result] gives for the pipe traffic [events_of] of the CONCATENATED chunks - exactly the data
+   and io.EOF, or the same error class after a prefix of the decodable data - provided no correctly
+   padded base64 quantum occurs before the end of the character stream ([no_ipad]). *)
+Theorem C10_stream_generic :
+  forall (T : Type) (tinit : T) (tfeed : T -> N -> T * list tok) (tfin : T -> list tok)
+         (chunks : list bytes) (sz : N -> nat) (fuel : nat),
+  (forall j, (1 <= sz j)%nat) ->
+  let F := events_of T tfeed tfin false tinit (List.concat chunks) in
+  no_ipad (tl (chars F)) = true -> (List.length (chars F) < fuel)%nat ->
+  fixed_ok T (stream_decode T tinit tfeed tfin chunks sz fuel) F.
+Proof. exact stream_decode_spec. Qed.
+
+(* ... instantiated with the tokenizer model of Armor.v and stated with armor_decode *)
+Theorem C10_stream_reads : forall doc chunks sz fuel,
+  List.concat chunks = doc -> (forall j, (1 <= sz j)%nat) ->
+  no_ipad (body_of doc) = true -> (List.length (fst (armor_scan doc)) < fuel)%nat ->
+  let r := armor_stream_decode chunks sz fuel in
+  match armor_decode doc with
+  | DOk d => s_data r = d /\ s_end r = Some REOF
+  | DErr e => s_end r = Some (RErr e) /\ prefix (s_data r) (fst (b64_decode_seq (body_of doc)))
+  end.
+Proof. exact stream_decode_armor. Qed.
+
+(* ... with the number of Reads the runner allows (3 per document byte: Text() at most triples a token) *)
+Theorem C10_stream_reads_run : forall doc chunks sz,
+  List.concat chunks = doc -> (forall j, (1 <= sz j)%nat) -> no_ipad (body_of doc) = true ->
+  let r := armor_stream_decode chunks sz (fuel_for doc) in
+  match armor_decode doc with
+  | DOk d => s_data r = d /\ s_end r = Some REOF
+  | DErr e => s_end r = Some (RErr e) /\ prefix (s_data r) (fst (b64_decode_seq (body_of doc)))
+  end.
+Proof. exact stream_decode_armor_run. Qed.
+
+(* non-vacuity: a document with an error after data, delivered byte by byte and read with buffers of
+   1, 2, 3, 1, 2, 3, ... bytes; and the hypotheses hold for it *)
+Example C10_stream_reads_example :
+  let doc := bs "<pre>0QUJD QUJD</pre><pre>" in
+  no_ipad (body_of doc) = true /\ armor_decode doc = DErr EUnterminated /\
+  let r := armor_stream_decode (map (fun c => [c]) doc) (fun i => S (N.to_nat (i mod 3))) 40 in
+  s_data r = bs "ABCABC" /\ s_end r = Some (RErr EUnterminated).
+Proof. vm_compute. auto. Qed.
+
+(* the condition on padding cannot be dropped: base64.NewDecoder decodes what it has gathered as one
+   chunk, so with a correctly padded quantum in the middle the answer depends on the caller's buffers *)
+Theorem C10_read_pattern_dependence : exists doc,
+  armor_decode doc = DErr EBadBase64 /\
+  s_end (armor_stream_decode [doc] (fun _ => 4096%nat) 40) = Some (RErr EBadBase64) /\
+  s_end (armor_stream_decode [doc] (fun _ => 1%nat) 40) = Some REOF /\
+  s_data (armor_stream_decode [doc] (fun _ => 1%nat) 40) = bs "AABC".
+Proof. exists (bs "<pre>0QQ==QUJD</pre>"). vm_compute. auto. Qed.
+
+(* round trip "for every pattern of encoder writes and decoder reads": any Writes, any chunks of the
+   resulting document from the source, any caller buffers *)
+Theorem C10_roundtrip_streaming : forall parts chunks sz fuel,
+  bytes_ok (List.concat parts) = true ->
+  List.concat chunks = armor_stream parts -> (forall j, (1 <= sz j)%nat) ->
+  (List.length (b64_encode (List.concat parts)) + 1 < fuel)%nat ->
+  let r := armor_stream_decode chunks sz fuel in
+  s_data r = List.concat parts /\ s_end r = Some REOF /\ sp_stuck (s_prod r) = false.
+Proof. exact roundtrip_streaming. Qed.
+
+Example C10_roundtrip_streaming_example :
+  let parts := [bs "he"; []; bs "llo"] in
+  bytes_ok (List.concat parts) = true /\
+  s_data (armor_stream_decode (cut_doc [7%nat; 1%nat] (armor_stream parts)) (fun i => S (N.to_nat (i mod 2))) 20) = bs "hello".
+Proof. vm_compute. auto. Qed.
+
+(* ================================================================== no hang, no leak, bounded buffering *)
+
+(* arbitrary documents (no condition at all): the caller's loop reaches io.EOF or an error, and then the
+   goroutine started by NewArmorDecoder has returned - whatever the source chunks and the buffers *)
+Theorem C10_total_and_released : forall doc chunks sz fuel,
+  List.concat chunks = doc -> (forall j, (1 <= sz j)%nat) ->
+  (List.length (fst (armor_scan doc)) < fuel)%nat ->
+  s_end (armor_stream_decode chunks sz fuel) <> None /\
+  sp_stuck (s_prod (armor_stream_decode chunks sz fuel)) = false.
+Proof. exact armor_total. Qed.
+
+Theorem C10_total_and_released_run : forall doc chunks sz,
+  List.concat chunks = doc -> (forall j, (1 <= sz j)%nat) ->
+  s_end (armor_stream_decode chunks sz (fuel_for doc)) <> None /\
+  sp_stuck (s_prod (armor_stream_decode chunks sz (fuel_for doc))) = false.
+Proof. exact armor_total_run. Qed.
+
+(* the release alone, for any tokenizer and any number of Reads: once an end has been reported (or
+   NewArmorDecoder failed) the producer is not blocked in a Write *)
+Theorem C10_goroutine_released :
+  forall (T : Type) (tinit : T) (tfeed : T -> N -> T * list tok) (tfin : T -> list tok) chunks sz fuel,
+  s_end (stream_decode T tinit tfeed tfin chunks sz fuel) <> None ->
+  p_stuck T tfeed tfin (s_prod (stream_decode T tinit tfeed tfin chunks sz fuel)) = false.
+Proof. exact stream_decode_released. Qed.
+
+(* the code before /repo commit 0dac441 ([dec_read0]: no close of the pipe when base64 fails) did not
+   have this property: same answer to the caller, goroutine blocked for ever *)
+Theorem C10_v0_goroutine_leak_refuted : exists doc,
+  s_end (armor_stream_decode0 [doc] (fun _ => 4096%nat) 40) = Some (RErr EBadBase64) /\
+  sp_stuck (s_prod (armor_stream_decode0 [doc] (fun _ => 4096%nat) 40)) = true /\
+  s_end (armor_stream_decode [doc] (fun _ => 4096%nat) 40) = Some (RErr EBadBase64) /\
+  sp_stuck (s_prod (armor_stream_decode [doc] (fun _ => 4096%nat) 40)) = false.
+Proof. exists (bs "<pre>0QU*D QUJD</pre>"). vm_compute. auto. Qed.
+
+(* bounded buffering.  In every state the caller can bring the decoder into (NewArmorDecoder, then any
+   Reads with any buffers, also after errors) the bytes it holds - raw bytes of the token the tokenizer
+   is reading, the unread rest of the last source Read, the words of the current text token not yet
+   taken from the pipe, base64.NewDecoder's two arrays - are at most 4*MAXBUF + B + 1792, where B bounds
+   the source's Reads.  (4 = 1 raw + 3 for Text(): a NUL becomes three bytes; character references
+   never grow, checked over the whole entity table.)  The document's length does not enter. *)
+Theorem C10_bounded_buffering : forall B chunks d,
+  Forall (fun ch => N.of_nat (List.length ch) <= B) chunks -> a_reach chunks d ->
+  a_held d <= 4 * MAXBUF + B + 1792.
+Proof. exact armor_held_bound. Qed.
+
+Theorem C10_bounded_buffering_new : forall B chunks e p,
+  Forall (fun ch => N.of_nat (List.length ch) <= B) chunks -> sdec_new chunks = NewErr tks e p ->
+  tcnt (p_tk p) + N.of_nat (List.length (p_cur p)) + q_bytes (p_q p) <= 4 * MAXBUF + B.
+Proof. exact armor_held_bound_new. Qed.
+
+(* the same for any tokenizer whose buffer is bounded (the hypotheses are the library boundary) *)
+Theorem C10_bounded_buffering_generic :
+  forall (T : Type) (tinit : T) (tfeed : T -> N -> T * list tok) (tfin : T -> list tok)
+         (theld : T -> N) (tinv : T -> Prop),
+  (forall t, tinv t -> theld t <= MAXBUF) -> tinv tinit ->
+  (forall t c, tinv t -> tinv (fst (tfeed t c)) /\ N.of_nat (text_bytes (snd (tfeed t c))) <= MAXBUF) ->
+  (forall t, tinv t -> N.of_nat (text_bytes (tfin t)) <= MAXBUF) ->
+  forall B chunks d, Forall (fun ch => N.of_nat (List.length ch) <= B) chunks ->
+  reach T tinit tfeed tfin chunks d -> held T theld d <= 4 * MAXBUF + B + 1792.
+Proof. exact held_bound. Qed.
+
+(* non-vacuity: a state reached after NewArmorDecoder and two Reads, holding something *)
+Example C10_bounded_buffering_example :
+  let chunks := [bs "<pre>0QUJDQUJD QUJD</pre>"] in
+  exists d, a_reach chunks d /\ 0 < a_held d.
+Proof.
+  cbv zeta. destruct (sdec_new [bs "<pre>0QUJDQUJD QUJD</pre>"]) as [e p|d0] eqn:E; [vm_compute in E; discriminate|].
+  exists (snd (sdec_read 2 (snd (sdec_read 2 d0)))). split.
+  - apply reach_read. apply reach_read. apply reach_new. exact E.
+  - vm_compute in E. injection E as <-. vm_compute. reflexivity.
+Qed.
+
+(* an element that reaches the limit is an error (never unbounded growth, never other data): see
+   C10_resep_oversize below; the tokenizer state never counts MAXBUF bytes *)
+Theorem C10_tokenizer_buffer_below_limit : forall t c, tk_inv t -> tk_inv (fst (tk_step t c)).
+Proof. intros t c H. exact (proj1 (tk_step_ok t c H)). Qed.
+
+(* ================================================================== shape, rewriting by caches *)
 
 (* the armored document is the fixed boilerplate around pre elements; each element has 1..992
    words of 1..32 bytes over the base64 alphabet, '=' or the version byte, each word followed
@@ -68,13 +232,11 @@ Proof.
   - split; [repeat constructor|vm_compute; reflexivity].
 Qed.
 
-(* markup added outside the pre elements.  [a] is any document prefix that ends just after a
-   complete tag/comment outside every pre element (that is what [run dinit a = mk MTxt 0 false o]
-   says; the start of the document and the position after each "</pre>" or boilerplate tag are
-   such points); [m] is any markup which, read on its own from such a point, is a sequence of
-   complete tokens none of which is a pre start/end tag and which hands no text to the decoder
-   ([neutral], decided by [neutralb]): inserting it leaves the result unchanged, for EVERY rest
-   of document [b] (well-formed or not). *)
+(* markup added outside the pre elements, I: complete tokens at a token boundary.  [a] is any document
+   prefix that ends just after a complete tag/comment outside every pre element (that is what
+   [run dinit a = mk MTxt 0 false o] says); [m] is any markup which, read on its own from such a point,
+   is a sequence of complete tokens none of which is a pre start/end tag ([neutral], decided by
+   [neutralb]): inserting it leaves the result unchanged, for EVERY rest of document [b]. *)
 Theorem C10_outside_markup : forall a b m o,
   run dinit a = mk MTxt 0 false o -> neutral m ->
   armor_decode (a ++ m ++ b) = armor_decode (a ++ b).
@@ -86,26 +248,65 @@ Proof. exact neutralb_sound. Qed.
 Theorem C10_neutral_concat : forall m1 m2, neutral m1 -> neutral m2 -> neutral (m1 ++ m2).
 Proof. exact neutral_app. Qed.
 
+(* markup added outside the pre elements, II: EVERYTHING the decoder ignores - bare text, text with
+   character references, comments, doctype, other elements with their content, raw-text elements - inserted
+   at ANY text position outside pre (also in the middle of the text between two elements).  [s] is the
+   state after the prefix [a]: outside pre, in the text state ([quiet]); [neutral_atb (cnt s) m = Some n']
+   is the decidable statement that [m] read from there hands nothing to the decoder and ends in the text
+   state with count n'.  Then the rest [b] decodes as without [m], provided the text token being read at
+   the junction (its [tlen] more bytes of [b]) still fits the tokenizer's buffer, with and without [m]. *)
+Theorem C10_outside_anything : forall a m b s n',
+  run dinit a = s -> quiet s -> neutral_atb (cnt s) m = Some n' ->
+  cnt s + tlen false b < MAXBUF -> n' + tlen false b < MAXBUF ->
+  armor_decode (a ++ m ++ b) = armor_decode (a ++ b).
+Proof. exact outside_any_dec. Qed.
+
+(* any '<'-free text is such markup wherever it fits *)
+Theorem C10_text_is_neutral : forall n t, noLT t -> n + blen t < MAXBUF -> neutral_atb n t = Some (n + blen t).
+Proof. exact text_neutral. Qed.
+
 (* non-vacuity: tags with quoted '>' , self-closing tags, comments, doctype, raw-text elements
-   (even containing "<pre>") are neutral; a pre tag and bare text are not; and the insertion
-   points exist in every armored document *)
+   (even containing "<pre>") are neutral; a pre tag is not; and the insertion points exist in every
+   armored document *)
 Example C10_neutral_examples :
   forallb neutralb (map bs ["<b>"; "</div>"; "<span title='a>b' class=""x"">"; "<br/>"; "<pre/>"; "<!-- c -->";
                             "<!-->"; "<!--a--!>"; "<!DOCTYPE y>"; "<?php ?>"; "</>"; "<title>x</title>";
-                            "<xmp><pre></xmp>"; "<noscript><pre></noscript>"; "<TITLE></pre></TiTlE >"]%string) = true
-  /\ neutralb (bs "<pre>") = false /\ neutralb (bs "</pre>") = false /\ neutralb (bs "text") = false.
+                            "<xmp><pre></xmp>"; "<noscript><pre></noscript>"; "<TITLE></pre></TiTlE >";
+                            "<script><!--<script></script><pre>--></script>"]%string) = true
+  /\ neutralb (bs "<pre>") = false /\ neutralb (bs "</pre>") = false.
 Proof. vm_compute. auto. Qed.
+
+(* text, "a < b", an element with text, a comment between text, character references: neutral from a
+   text position (here count 1, the state after "</pre>\n") *)
+Example C10_neutral_at_examples :
+  map (neutral_atb 1) (map bs ["hello"; "a < b & c"; "<p>AT&amp;T</p> x"; "x<!-- <pre> -->y"; "<title><pre></title>z";
+                               "<pre>"; "x</pre>"; "<"]%string)
+  = [Some 6; Some 10; Some 2; Some 1; Some 1; None; None; None].
+Proof. vm_compute. reflexivity. Qed.
+
+Example C10_outside_anything_example :
+  let a := boilerplate_start ++ element [bs "0aGk="] in
+  let m := bs "cached by <b>example</b> &copy; 2026" in
+  let b := element [bs "aGk="] ++ boilerplate_end in
+  exists s n', run dinit a = s /\ quiet s /\ neutral_atb (cnt s) m = Some n' /\
+               cnt s + tlen false b < MAXBUF /\ n' + tlen false b < MAXBUF /\
+               armor_decode (a ++ m ++ b) = armor_decode (a ++ b).
+Proof.
+  cbv zeta. eexists _, _. split; [reflexivity|]. split; [vm_compute; auto|]. split; [vm_compute; reflexivity|].
+  split; [vm_compute; reflexivity|]. split; [vm_compute; reflexivity|]. vm_compute. reflexivity.
+Qed.
 
 Example C10_insertion_points :
   run dinit [] = mk MTxt 0 false [] /\
   (exists o, run dinit (firstn 982 boilerplate_start) = mk MTxt 0 false o) /\
-  (exists o, run dinit (boilerplate_start ++ element [bs "0aGk="]) = mk MTxt 1 false o) /\
+  (exists o, run dinit (boilerplate_start ++ element [bs "0aGk="]) = mkb MTxt 1 [LF] false o) /\
   (exists o, run dinit (boilerplate_start ++ bs "<pre>0aGk=</pre>") = mk MTxt 0 false o).
 Proof. split; [reflexivity|]. repeat split; eexists; vm_compute; reflexivity. Qed.
 
 (* every input yields data or exactly one error class, in this priority: how the token stream
-   ended ([t]: clean end, or stray </pre>, nested <pre>, missing </pre>, buffer limit) and what
-   reached the decoder before that ([out]: version byte, then base64 quanta decoded in order) *)
+   ended ([t]: clean end, or stray </pre>, nested <pre>, missing </pre>, buffer limit, a word beyond
+   bufio's token limit) and what reached the decoder before that ([out]: version byte, then base64
+   quanta decoded in order) *)
 Theorem C10_decode_classes : forall doc,
   let out := fst (armor_scan doc) in
   let t := snd (armor_scan doc) in
@@ -123,12 +324,15 @@ Theorem C10_decode_classes : forall doc,
   end.
 Proof. exact decode_classes. Qed.
 
-(* each class is inhabited *)
+(* each class is inhabited; character references, NUL, script escapes, upper case are part of the model *)
 Example C10_classes_inhabited :
   map armor_decode (map bs ["<pre>0QUJD</pre>"; ""; "<pre>1QUJD</pre>"; "<pre>0QU*D</pre>"; "<pre>0QUJ</pre>";
-                            "</pre>"; "<pre><pre>"; "<pre>0QUJD"]%string)
+                            "</pre>"; "<pre><pre>"; "<pre>0QUJD";
+                            "<PRE class=x>0QU&#74;D</pRe >"; "<pre>0&lt;pre&gt;</pre>";
+                            "<script><!--<script></script><pre>1--></script><pre>0QUJD</pre>"]%string)
   = [DOk (bs "ABC"); DErr EEmpty; DErr EUnknownVersion; DErr EBadBase64; DErr EBadBase64;
-     DErr EStray; DErr ENested; DErr EUnterminated].
+     DErr EStray; DErr ENested; DErr EUnterminated;
+     DOk (bs "ABC"); DErr EBadBase64; DOk (bs "ABC")].
 Proof. vm_compute. reflexivity. Qed.
 
 (* non-vacuity of C10_resep_oversize: 32766 spaces before the first word *)
